@@ -176,7 +176,8 @@ def mk_order(order, shape):
 
 
 def get_offset(idx, strides):
-    return sum(ii * ss for ii, ss in zip(idx, strides))
+    # python integers: a small numpy integer type would overflow
+    return sum(int(ii) * ss for ii, ss in zip(idx, strides))
 
 
 def bound_check(index, shape):
